@@ -23,7 +23,7 @@ PROBES = ['restart_at_later_slot', 'same_step_restarted_twice', 'retry_budget_ex
 
 def plan(tier):
     if tier == 'thorough':
-        return {'n': 300000, 'chunk': 300, 'timeout': 300, 'selftest': 60, 'budget_s': 7200, 'minimize_s': 300}
+        return {'n': 300000, 'chunk': 300, 'timeout': 300, 'selftest': 60, 'budget_s': 3000, 'minimize_s': 300}
     return {'n': 4500, 'chunk': 90, 'timeout': 300, 'selftest': 12, 'budget_s': 900, 'minimize_s': 120}
 
 
